@@ -200,6 +200,7 @@ impl Distance {
     /// Returns the integer part of the base 2 logarithm of the [`Distance`].
     ///
     /// Returns `None` if the distance is zero.
+    #[cfg_attr(kani, kani::ensures(|r: &Option<u32>| verif::c40::spec_is_ilog2(&self.0.0, *r)))]
     pub fn ilog2(&self) -> Option<u32> {
         (256 - self.0.leading_zeros()).checked_sub(1)
     }
@@ -267,4 +268,9 @@ mod tests {
         }
         quickcheck(prop as fn(_, _) -> _)
     }
+}
+
+#[cfg(kani)]
+pub(crate) mod verif {
+    include!(concat!(env!("LIBP2P_VERIF"), "/hooks/kad_kbucket_key.rs"));
 }
